@@ -596,6 +596,8 @@ class _CDF(Fam):
         kw = dict(shape=cfg["shape"], num_bins=cfg["bins"], tails=cfg["tails"], tail_bound=cfg["B"])
         if self.kind == "rq" and cfg.get("idinit"):
             kw["identity_init"] = True
+        if self.kind == "rq" and cfg.get("minder"):
+            kw["min_derivative"] = cfg["minder"]
         return cls(**kw)
 
     def meta(self, cfg):
@@ -632,6 +634,7 @@ class CDFRQ(_CDF):
     def sample_cfg(self, rng, tier):
         c = super().sample_cfg(rng, tier)
         c["idinit"] = bool(rng.random() < 0.3)
+        c["minder"] = float(rng.choice([0.0, 0.0, 1e-2, 0.1]))
         return c
 
 
@@ -696,6 +699,8 @@ class _Coupling(Fam):
                       apply_unconditional_transform=cfg.get("uncond", False))
             if image and cfg.get("uncond"):
                 kw["img_shape"] = cfg["shape"][1:]
+            if self.kind == "rq" and cfg.get("minder"):
+                kw["min_derivative"] = cfg["minder"]
         return self.cls()(mask=cfg["mask"], transform_net_create_fn=net_factory(cfg, image), **kw)
 
     def meta(self, cfg):
@@ -775,6 +780,9 @@ class CCubic(_Coupling):
 class CRQ(_Coupling):
     name = "coupling_rq"
     kind = "rq"
+
+    def extra(self, cfg, rng):
+        cfg["minder"] = float(rng.choice([0.0, 0.0, 1e-2, 0.1]))
 
 
 @reg
@@ -860,6 +868,8 @@ class _AR(Fam):
             return T.MaskedPiecewiseQuadraticAutoregressiveTransform(num_bins=cfg["bins"], tails=cfg["tails"],
                                                                      tail_bound=cfg["B"], **kw)
         if self.kind == "rq":
+            if cfg.get("minder"):
+                kw["min_derivative"] = cfg["minder"]
             return T.MaskedPiecewiseRationalQuadraticAutoregressiveTransform(num_bins=cfg["bins"], tails=cfg["tails"],
                                                                              tail_bound=cfg["B"], **kw)
         if self.kind == "umnn":
@@ -928,6 +938,11 @@ class ARRQ(_AR):
     name = "ar_rq"
     kind = "rq"
     has_tails = True
+
+    def sample_cfg(self, rng, tier):
+        c = super().sample_cfg(rng, tier)
+        c["minder"] = float(rng.choice([0.0, 0.0, 1e-2, 0.1]))
+        return c
 
 
 @reg
@@ -1325,13 +1340,14 @@ def sample_context(m, n, seed, scale=1.0):
     return torch.randn([n] + list(m["ctx_shape"]), generator=g) * scale
 
 
-def make(cfg, policy="fresh", seed=0, mode="eval"):
-    """Builds, applies the parameter policy, warms data-dependent init, sets the mode."""
+def make(cfg, policy="fresh", seed=0, mode="eval", do_warm=True):
+    """Builds, applies the parameter policy, warms data-dependent init (unless do_warm=False), sets the mode."""
     torch.manual_seed(int(seed))
     model = build(cfg)
     apply_policy(model, policy, seed + 1)
     if mode == "eval":
-        warm(model, cfg, seed)
+        if do_warm:
+            warm(model, cfg, seed)
         model.eval()
     else:
         model.train()
